@@ -22,10 +22,10 @@ PEER = 31
 REPLY_TYPES = (2, 3, 5, 6, 7)       # simple ack, complex ack, error, reject, abort
 
 
-def make_world():
+def make_world(seg="segmentedBoth"):
     w = World()
     lan = nl.FaultLAN([], world=w)
-    dev = Device(nl.make_device("dut", 20), lan)
+    dev = Device(nl.make_device("dut", 20, segmentationSupported=seg), lan)
     av = AnalogValueObject(objectIdentifier=("analogValue", 1), objectName="av1", presentValue=72.5,
                            statusFlags=[0, 0, 0, 0], units="degreesFahrenheit")
     dev.add_object(av)
@@ -163,8 +163,8 @@ FRAME_LEN = {"read-property": 13, "write-property": 20, "read-property-multiple"
              "together with a second, valid ReadProperty queued in the same instant and followed by a third valid request",
       outside="two or more mutations per frame; services other than the four instantiated",
       stubs=STUBS)
-def frame_mutation(d, service, mutation, part=None):
-    w, lan, dev, peer, av = make_world()
+def frame_mutation(d, service, mutation, part=None, seg="segmentedBoth", header_only=False):
+    w, lan, dev, peer, av = make_world(seg)
     inv = 0x21
     apdu = VALID[service](inv, d)
     confirmed = service != "who-is"
@@ -175,6 +175,8 @@ def frame_mutation(d, service, mutation, part=None):
         # not the four value octets of the Real: any substitution there is just another valid value (and the
         # float decoder makes the engine enumerate all 256 of them)
         positions = [p for p in positions if p < 15 or p > 18]
+    if header_only:             # NPCI and the fixed APDU header
+        positions = [p for p in positions if p < 6]
     if part is not None:        # (i, n): the i-th of n slices of the positions, to share the tree between processes
         i, n = part
         positions = positions[len(positions) * i // n: len(positions) * (i + 1) // n]
@@ -373,6 +375,10 @@ def instances(tier):
                 out.append(Inst(frame_mutation, dict(service=service, mutation=mutation, part=(i, parts)),
                                 budget=80 if q else 900, path_timeout=60,
                                 label="%s,%s,part%d/%d" % (service, mutation, i + 1, parts)))
+    # the fixed header mutated toward devices that do not take segmented requests
+    for seg in ("noSegmentation", "segmentedTransmit"):
+        out.append(Inst(frame_mutation, dict(service="read-property", mutation="substitute", seg=seg, header_only=True),
+                        budget=80 if q else 300, label="read-property,substitute,header,%s" % seg))
     # link-level noise: anything short; then version-1 frames whose control octet says "APDU follows" (the APDU
     # area is garbage) and network-layer messages of known / unknown / proprietary types (the type octet is kept
     # concrete: a class looked up by a symbolic key cannot be instantiated by the engine)
